@@ -1,6 +1,8 @@
 import Driver.Sexp
 import Pcore.Model.Dispatch
-/-! Driver op for C16:  `call <lt> <ds> <args> <blk>` (syntax in harness/c16/c16.go).  The `new` op is implementation-only. -/
+import Pcore.Model.DispatchCtors
+/-! Driver ops for C16:  `call <lt> <ds> <args> <blk>` and `newm <recv> <args>` (syntax in harness/c16/c16.go).  The general
+    `new` op is implementation-only. -/
 namespace C16
 open Sx Pcore.Dispatch Pcore.Dispatch.Alpha
 
@@ -26,7 +28,10 @@ partial def tyOf (env : List (String × Sexp)) (fuel : Nat) : Sexp → Option Ty
       let l ← boundNat? lo
       some (.str (l.getD 0) (← boundNat? hi))
   | .list (.atom "enum" :: vs) => (vs.mapM Sexp.str?).map .enum
-  | .list [.atom "arr", e] => (tyOf env fuel e).map .arr
+  | .list [.atom "arr", e] => (tyOf env fuel e).map fun t => .arr t 0 none
+  | .list [.atom "arrn", e, lo, hi] => do
+      let t ← tyOf env fuel e
+      some (.arr t (← lo.nat?) (← boundNat? hi))
   | .list [.atom "opt", e] => (tyOf env fuel e).map .opt
   | .list (.atom "var" :: t :: ts) => ((t :: ts).mapM (tyOf env fuel)).map .var
   | .list [.atom "al", .atom n] =>
@@ -40,6 +45,7 @@ partial def valOf : Sexp → Option Val
   | .list [.atom "s", s] => s.str?.map .str
   | .list [.atom "b", b] => b.bool?.map .bool
   | .list [.atom "u"] => some .undef
+  | .list [.atom "d"] => some .default
   | .list (.atom "a" :: vs) => (vs.mapM valOf).map .arr
   | _ => none
 
@@ -80,7 +86,29 @@ def blkOf : Sexp → Option (Option Blk)
       | none => some (some { min := mn, max := none })
   | _ => none
 
+partial def valStr : Val → String
+  | .int n => s!"(i {n})"
+  | .str s => s!"(s {hexOfString s})"
+  | .bool b => s!"(b {boolStr b})"
+  | .undef => "(u)"
+  | .default => "(d)"
+  | .arr vs => "(a" ++ String.join (vs.map fun v => " " ++ valStr v) ++ ")"
+
+def recvTyOf : Sexp → Option RecvTy
+  | .list [.atom "init"] => some .initDefault
+  | .list [.atom "init", t] => (tyOf [] 0 t).map .init
+  | t => (tyOf [] 0 t).map .plain
+
 def exec : List Sexp → String
+  | [.atom "newm", r, .list (.atom "args" :: args)] =>
+    match recvTyOf r, args.mapM valOf with
+    | some recv, some vs =>
+      match newModel recv vs with
+      | none => "bad-op"          -- a receiver whose constructor is not modelled
+      | some (.value v) => "value " ++ valStr v
+      | some (.reported c) => "reported " ++ c
+      | some .fault => "fault"
+    | _, _ => "bad-op"
   | [.atom "call", .list (.atom "lt" :: lt), .list (.atom "ds" :: ds), .list (.atom "args" :: args), blk] =>
     match envOf lt, blkOf blk, args.mapM valOf with
     | some env, some b, some vs =>
